@@ -25,6 +25,14 @@ import (
 
 // the regular expression documented above nextAnsiEscapeSequence in src/ansi.go ("is equivalent to
 // calling FindStringIndex() on the below regex"), copied verbatim
+//
+// c11Regex is used on grammar-generated (well-formed) input. On arbitrary bytes the reference is c11RegexBytes:
+// the same expression plus the one leniency the code documents in matchOperatingSystemCommand - an OSC-8
+// close whose string terminator lost its backslash, "ESC ] 8 ; ; ESC", is one sequence (the alternative
+// stands after the OSC alternative, so a proper ESC \ terminator still wins). It only concerns malformed
+// input, and it keeps the text that follows.
+var c11RegexBytes = regexp.MustCompile("(?:\x1b[\\[()][0-9;:?]*[a-zA-Z@]|\x1b][0-9]+[;:][[:print:]]+(?:\x1b\\\\|\x07)|\x1b]8;;\x1b|\x1b.|[\x0e\x0f]|.\x08)")
+
 var c11Regex = regexp.MustCompile("(?:\x1b[\\[()][0-9;:?]*[a-zA-Z@]|\x1b][0-9]+[;:][[:print:]]+(?:\x1b\\\\|\x07)|\x1b.|[\x0e\x0f]|.\x08)")
 
 var c11Alphabet = []byte{0x1b, '[', ']', '(', 'm', 'K', ';', ':', '0', '1', '3', '8', 'a', 0x08, 0x0e, '\n', 0x07, '\\', 0xc3, 0xa9}
@@ -43,6 +51,8 @@ func c11Alt(m string) string {
 		return "csi"
 	case len(m) > 3 && m[1] == ']' && (m[len(m)-1] == 0x07 || strings.HasSuffix(m, "\x1b\\")):
 		return "osc"
+	case m == "\x1b]8;;\x1b":
+		return "osc8-close-bare-esc"
 	}
 	return "esc2"
 }
@@ -102,7 +112,7 @@ func c11CheckBytes(r *kit.Run, s string) {
 	}
 	ws, we := -1, -1
 	alt := "none"
-	if loc := c11Regex.FindStringIndex(s); loc != nil {
+	if loc := c11RegexBytes.FindStringIndex(s); loc != nil {
 		ws, we = loc[0], loc[1]
 		alt = c11Alt(s[ws:we])
 		r.NT()
@@ -110,10 +120,10 @@ func c11CheckBytes(r *kit.Run, s string) {
 	r.Outcome("first=" + alt)
 	if st != ws || en != we {
 		d := det()
-		d["scanner"], d["regex"], d["regex_alternative"] = []int{st, en}, []int{ws, we}, alt
-		r.Violation(c11ScanClass(s, st, en, ws, we, alt), d)
+		d["scanner"], d["reference"], d["reference_alternative"] = []int{st, en}, []int{ws, we}, alt
+		r.Violation("scanner!=regex:"+alt, d)
 	}
-	want := c11Regex.ReplaceAllString(s, "")
+	want := c11RegexBytes.ReplaceAllString(s, "")
 	plain := !strings.ContainsAny(s, "\x1b\x08\x0e\x0f")
 	for pass := 0; pass < 2; pass++ {
 		var state *ansiState
@@ -133,22 +143,13 @@ func c11CheckBytes(r *kit.Run, s string) {
 			if len(text) < len(want) {
 				cls = "strip:swallows-text"
 			}
-			if text == c11RegexBareClose.ReplaceAllString(s, "") {
-				cls = c11BareOsc8Class // exactly what the scanner's one deliberate extension predicts
-			}
 			r.Violation(cls, d)
 		}
 		if !c11SpansOK(offs, utf8.RuneCountInString(text)) {
 			d := det()
 			d["spans"], d["text"], d["carried_state"] = c11Spans(offs), text, pass == 1
 			cls := "spans:malformed"
-			// one specific shape: removing a sequence joins two fragments of a multi-byte character (invalid UTF-8 input);
-			// the spans count the fragments, the text has one character less
-			sum := 0
-			for _, seg := range c11Regex.Split(s, -1) {
-				sum += utf8.RuneCountInString(seg)
-			}
-			if text == want && sum > utf8.RuneCountInString(text) && c11SpansOK(offs, sum) {
+			if text == want && c11JoinedFragments(s, text, offs) {
 				cls = "spans:beyond-text:removed-sequence-joins-utf8-fragments"
 			}
 			r.Violation(cls, d)
@@ -161,19 +162,56 @@ func c11CheckBytes(r *kit.Run, s string) {
 	}
 }
 
-// The scanner deliberately (see the comment in matchOperatingSystemCommand) treats "ESC ] 8 ; ; ESC" - an
-// OSC-8 close whose string terminator lost its backslash - as one sequence; the documented expression
-// does not. That single shape gets its own class; every other disagreement is "scanner!=regex:<alt>".
-const c11BareOsc8Class = "scanner!=regex:osc8-close-with-bare-esc"
-
-// the documented expression plus that one extension (NOT the reference; only used to recognise the shape)
-var c11RegexBareClose = regexp.MustCompile("(?:\x1b[\\[()][0-9;:?]*[a-zA-Z@]|\x1b][0-9]+[;:][[:print:]]+(?:\x1b\\\\|\x07)|\x1b]8;;\x1b|\x1b.|[\x0e\x0f]|.\x08)")
-
-func c11ScanClass(s string, st, en, ws, we int, alt string) string {
-	if st == ws && st >= 0 && strings.HasPrefix(s[st:], "\x1b]8;;\x1b") && en == st+6 && we == ws+2 {
-		return c11BareOsc8Class
+// Exact shape of known finding D23: the input is invalid UTF-8 in which a removed sequence separates bytes
+// that form ONE valid multi-byte rune once joined. extractColor counts runes fragment by fragment, so
+//   - the spans are well-formed in fragment coordinates (ordered, non-overlapping, within the fragments' total),
+//   - every span boundary that lies beyond the joined text is a fragment count at a sequence boundary (or the total),
+//   - the total of the fragments' rune counts exceeds the rune count of the joined text, and at least one
+//     join point lies strictly inside a valid multi-byte rune of the joined text.
+//
+// Any other span beyond the text is class spans:malformed.
+func c11JoinedFragments(s, text string, offs *[]ansiOffset) bool {
+	locs := c11RegexBytes.FindAllStringIndex(s, -1)
+	legal := map[int32]bool{}
+	joins := map[int]bool{} // byte offsets in the joined text where a sequence was removed
+	sum, pos, prev := 0, 0, 0
+	for _, loc := range locs {
+		seg := s[prev:loc[0]]
+		sum += utf8.RuneCountInString(seg)
+		pos += len(seg)
+		legal[int32(sum)] = true
+		joins[pos] = true
+		prev = loc[1]
 	}
-	return "scanner!=regex:" + alt
+	sum += utf8.RuneCountInString(s[prev:])
+	legal[int32(sum)] = true
+	n := utf8.RuneCountInString(text)
+	if sum <= n || !c11SpansOK(offs, sum) {
+		return false
+	}
+	merged := false
+	for i := 0; i < len(text); {
+		c, w := utf8.DecodeRuneInString(text[i:])
+		if w > 1 && c != utf8.RuneError {
+			for k := i + 1; k < i+w; k++ {
+				if joins[k] {
+					merged = true
+				}
+			}
+		}
+		i += w
+	}
+	if !merged {
+		return false
+	}
+	for _, o := range *offs {
+		for _, b := range o.offset {
+			if int(b) > n && !legal[b] {
+				return false
+			}
+		}
+	}
+	return true
 }
 
 func TestVerif_C11_bytes(t *testing.T) {
@@ -244,7 +282,7 @@ func TestVerif_C11_osc(t *testing.T) {
 		}
 		s := "\x1b]" + string(b)
 		c11CheckBytes(r, s)
-		if loc := c11Regex.FindStringIndex(s); loc != nil && c11Alt(s[loc[0]:loc[1]]) == "osc" {
+		if loc := c11RegexBytes.FindStringIndex(s); loc != nil && c11Alt(s[loc[0]:loc[1]]) == "osc" {
 			r.Count("complete_osc_sequences")
 			if loc[1] < len(s) {
 				r.Count("complete_osc_followed_by_more")
